@@ -4,7 +4,7 @@
    The if / else-if chain with `value += M_2PI` / `value -= M_2PI` is translated to nested conditionals on the locals;
    M_2PI is read from its own initialiser `2 * M_PI` in the source. *)
 From Coq Require Import Reals ZArith Lra.
-From Romea Require Import Num NumR AnglesModel AnglesRoundtrip.
+From Romea Require Import Num NumR AnglesModel AnglesRoundtrip SrcTie.
 From Romea.gen Require Import SrcFuns.
 Local Open Scope R_scope.
 
@@ -14,29 +14,29 @@ Proof. replace (IZR 2) with 2 by reflexivity. lra. Qed.
 Lemma tie_between0And2Pi v : src_between0And2Pi ROps v = b02 v.
 Proof.
   unfold src_between0And2Pi, b02, between0And2Pi, m_2pi, idR.
-  cbn [nfmod nmul nofZ npi nltb nadd nzero ntwo n_one ROps].
-  rewrite two_pi_src. reflexivity.
+  cbv zeta. dict. rewrite ?two_pi_src.
+  match goal with |- (if ?c then _ else _) = (if ?c' then _ else _) => replace c with c' by req; destruct c' end; req.
 Qed.
 
 Lemma tie_betweenMinusPiAndPi v : src_betweenMinusPiAndPi ROps v = bpi v.
 Proof.
   unfold src_betweenMinusPiAndPi, bpi, betweenMinusPiAndPi, m_2pi, idR.
-  cbn [nfmod nmul nofZ npi nltb nadd nsub nneg nzero ntwo n_one ROps].
-  rewrite two_pi_src. reflexivity.
+  cbv zeta. dict. rewrite ?two_pi_src.
+  repeat (match goal with |- (if ?c then _ else _) = (if ?c' then _ else _) => replace c with c' by req; destruct c' end); req.
 Qed.
 
 Lemma tie_rotation2DToEulerAngle (m : mat2 R) :
-  src_rotation2DToEulerAngle ROps (a10 m) (a01 m) (a00 m) (a11 m) = rotation2DToEulerAngle ROps ROps idR idR m.
+  src_rotation2DToEulerAngle ROps (a00 m) (a01 m) (a10 m) (a11 m) = rotation2DToEulerAngle ROps ROps idR idR m.
 Proof.
-  unfold src_rotation2DToEulerAngle, rotation2DToEulerAngle. rewrite tie_between0And2Pi. reflexivity.
+  unfold src_rotation2DToEulerAngle, rotation2DToEulerAngle. rewrite tie_between0And2Pi. unfold b02. dict. req.
 Qed.
 
 (* the model returns None where asin would be NaN (|m20| > 1); on the domain of asin the three angles are the source's *)
 Lemma tie_rotation3DToEulerAngles (m : mat3 R) :
   nleb ROps (nabs ROps (m20 m)) (n_one ROps) = true ->
   rotation3DToEulerAngles ROps ROps idR idR m =
-  (let '(r, p, y) := src_rotation3DToEulerAngles ROps (m21 m) (m22 m) (m20 m) (m10 m) (m00 m) in Some (mkV3 r p y)).
+  (let '(r, p, y) := src_rotation3DToEulerAngles ROps (m00 m) (m10 m) (m20 m) (m21 m) (m22 m) in Some (mkV3 r p y)).
 Proof.
   intros H. unfold rotation3DToEulerAngles, src_rotation3DToEulerAngles. rewrite H.
-  rewrite !tie_between0And2Pi. reflexivity.
+  rewrite !tie_between0And2Pi. unfold b02. dict. req.
 Qed.
